@@ -71,3 +71,19 @@ type DBCfg struct {
 	Size int
 	Name string
 }
+
+// NamedSource: one properties type serving several subtrees - its prefix depends on the state of the instance the
+// field holds (a nil or unnamed one answers for the default subtree).
+type NamedSource struct {
+	name string
+	Host string `yaml:"host"`
+	Port int    `yaml:"port"`
+}
+
+func NewNamedSource(name string) *NamedSource { return &NamedSource{name: name} }
+func (d *NamedSource) Prefix() string {
+	if d == nil || d.name == "" {
+		return "datasource.default"
+	}
+	return "datasource." + d.name
+}
